@@ -56,6 +56,26 @@ def make_seeds(wd, extra_corpus=None):
     return seeds, n
 
 
+def grammar_seeds(chk, wd):
+    """thorough tier: sentences derived from the reference grammar G become additional fault seeds"""
+    import fam_grammar
+    import random
+    rng = random.Random(common.seed())
+    lines = []
+    for (start, free) in (("DDL", True), ("QueryStatement", False), ("E12", False), ("DML", True), ("Type", False)):
+        tapes, n = fam_grammar.generate(chk, "seed-" + start, 1, start, free, wd)
+        out = os.path.join(wd, "gseed-%s.ndjson" % start)
+        harness_json(["gram", "-in", tapes, "-out", os.path.join(wd, "gseed.findings"), "-dump", out])
+        ls = open(out).read().splitlines()
+        rng.shuffle(ls)
+        lines += ls[:60]
+    path = os.path.join(wd, "grammar-seeds.ndjson")
+    with open(path, "w") as fh:
+        fh.write("\n".join(lines) + "\n")
+    chk.notes["grammar_seed_sentences"] = len(lines)
+    return path
+
+
 def gen_faults(chk, tier, wd, seeds, nseeds):
     cfg = TIERS[tier]
     out = os.path.join(wd, "faults.ndjson")
@@ -144,6 +164,8 @@ def run_into(chk, prop, tier, wd, extra_corpus=None, faults_only=False):
     os.makedirs(wd, exist_ok=True)
     design_check(chk, wd, tier == "quick")
     common.log("design model checked")
+    if tier == "thorough" and extra_corpus is None:
+        extra_corpus = grammar_seeds(chk, wd)
     seeds, nseeds = make_seeds(wd, extra_corpus)
     faults = gen_faults(chk, tier, wd, seeds, nseeds)
     common.log("faults generated")
